@@ -88,6 +88,17 @@ class Check:
         self.undecided: list[str] = []
         self.selftests: list[dict] = []
         self._nontrivial: set[str] = set()
+        self.part_errors: list[str] = []
+
+    def part(self, name: str, fn: Callable[[], None]) -> None:
+        """Run one independent group of rules.  If it cannot be analysed the other groups still run;
+        the check then ends as ANALYSIS-ERROR (exit 2) unless another group found a violation."""
+        try:
+            fn()
+        except AnalysisError as e:
+            self.part_errors.append(f"{name}: {e}")
+        except RecursionError as e:
+            self.part_errors.append(f"{name}: recursion limit: {e}")
 
     # -- recording
     def rule(self, name: str, desc: str, floor: int = 1) -> None:
@@ -130,6 +141,11 @@ class Check:
     # -- finishing
     def finish(self) -> int:
         known, fixed = load_known()
+        from . import par
+
+        self.part_errors.extend(f"job: {e}" for e in par.take_errors())
+        if self.part_errors and not self.violations:
+            raise AnalysisError("; ".join(self.part_errors))
         # instance floors: a rule matching (almost) nothing passes vacuously forever -> broken analysis
         for name, r in self.rules.items():
             # (when violations were found some dependent instances are legitimately skipped)
@@ -161,6 +177,8 @@ class Check:
             print(f"  {name}: {r['discharged']}/{r['instances']} (floor {r['floor']}) — {r['desc']}")
         for st in self.selftests:
             print(f"  selftest {st['name']}: ok")
+        for e in self.part_errors:
+            print(f"  (not analysed: {e})")
         for l in kf_lines:
             print(l)
         for l in out_lines:
